@@ -97,6 +97,30 @@ def run(chk, prog):
                 body = [x for x in body if x is not st]
     if loopvar is None:
         raise AnalysisError("_record.inner: unrecognised driver loop form (neither `while <next>:` nor `while True: ... if not <next>: break`)")
+    # the recorded pair read by field name: `rec = <next>` (a two-field NamedTuple of this module), then rec.<field0> / rec.<field1>  ==  (tag, frame) = <next>
+    nts = [c for c in ast.walk(m.tree) if isinstance(c, ast.ClassDef) and any(ast.unparse(b).split(".")[-1] == "NamedTuple" for b in c.bases)]
+    pairs = [[x.target.id for x in c.body if isinstance(x, ast.AnnAssign) and isinstance(x.target, ast.Name)] for c in nts]
+    for i, st in enumerate(body):
+        tgt = st.target if isinstance(st, ast.AnnAssign) else (st.targets[0] if isinstance(st, ast.Assign) and len(st.targets) == 1 else None)
+        if isinstance(tgt, ast.Name) and isinstance(getattr(st, "value", None), ast.Name) and st.value.id == loopvar:
+            rec_ = tgt.id
+            used = {n.attr for x in body for n in ast.walk(x) if isinstance(n, ast.Attribute) and isinstance(n.value, ast.Name) and n.value.id == rec_}
+            bare = [n for x in body if x is not st for n in ast.walk(x) if isinstance(n, ast.Name) and n.id == rec_]
+            attr_bases = [n.value for x in body for n in ast.walk(x) if isinstance(n, ast.Attribute) and isinstance(n.value, ast.Name) and n.value.id == rec_]
+            flds = next((f for f in pairs if len(f) == 2 and used <= set(f)), None)
+            if flds is not None and len(bare) == len(attr_bases):
+                import copy
+
+                class _R(ast.NodeTransformer):
+                    def visit_Attribute(self, n):
+                        if isinstance(n.value, ast.Name) and n.value.id == rec_ and n.attr in flds:
+                            return ast.copy_location(ast.Name(id=f"{rec_}__{n.attr}", ctx=n.ctx), n)
+                        return self.generic_visit(n)
+                unpack = ast.parse(f"({rec_}__{flds[0]}, {rec_}__{flds[1]}) = {loopvar}").body[0]
+                body = [ast.fix_missing_locations(_R().visit(copy.deepcopy(x))) if x is not st else ast.copy_location(unpack, st) for x in body]
+                for x in body:
+                    ast.fix_missing_locations(x)
+            break
     der = " ; ".join(ast.unparse(s) for s in body)[:300]
     roles, pos = {}, {}
     is_resume = lambda v: isinstance(v, ast.Call) and isinstance(v.func, ast.Call) and ast.unparse(v.func.func) == "time_travel" and len(v.func.args) == 1 and len(v.args) == 1 and isinstance(v.args[0], ast.Starred)
